@@ -294,3 +294,18 @@ fn c03_guard_reserved_opcode() {
     core::mem::forget(instr);
     core::mem::forget(emitter);
 }
+
+// ---------------------------------------------------------------------------------------
+// C03 ("every ... offset"): a jump target is stored as LanguageHooks::encode_label(cur, dest) and
+// read back with decode_label(cur, bits).  Contract: for every pair of offsets inside a script
+// (below 2^31, far above any script the size fields allow) decode(cur, encode(cur, dest)) == dest.
+
+pub fn label_round_trip(hooks: &dyn crate::llir::LanguageHooks, dest_multiple_of: u64) {
+    let cur: u64 = kani::any();
+    let dest: u64 = kani::any();
+    kani::assume(cur < (1u64 << 31) && dest < (1u64 << 31));
+    kani::assume(dest % dest_multiple_of == 0);
+    let bits = hooks.encode_label(cur, dest);
+    let back = hooks.decode_label(cur, bits);
+    assert!(back == dest, "jump offset read back differs from the label's offset");
+}
